@@ -27,8 +27,14 @@ BASES = [
     [mrec("a", "x", ["a1"], ["x1"]), mrec("b", "y", ["b1"]), mrec("c", "z")],
     [mrec("a", "x", ["a1", "a2"]), mrec("b", "y", ["b1"], ["y1", "y2"]), mrec("c", "z", [], [], "^1$")],
     "incremental",
+    [mrec("", "d", ["dd"], ["d1"]), mrec("b", "y", ["b1"]), mrec("c", "z")],   # the empty (default) prefix is a legal canonical prefix
 ]
 NAMES = ["a", "b", "c", "a1", "b1", "n", "m"]
+NAMES_BY_BASE = {3: ["", "b", "c", "dd", "b1", "n", "m"]}
+
+
+def names(b):
+    return NAMES_BY_BASE.get(b, NAMES)
 
 
 def make_base(k):
@@ -61,7 +67,7 @@ def units(tier, seed):
     us = []
     for b in range(len(BASES)):
         for n in range(1, max_pairs(tier) + 1):
-            keysets = list(it.combinations(NAMES, n))
+            keysets = list(it.combinations(names(b), n))
             for ch in chunks(keysets, 35 if n >= 3 else 4):
                 us.append({"base": b, "n": n, "keysets": [list(k) for k in ch]})
     return us
@@ -189,7 +195,8 @@ def check(base_idx, pairs, twice=False, ctx=None):
             # the statement speaks of "old's record": the renaming may depend on which records the keys name, not on
             # whether a key is written as the canonical prefix or as a synonym of that record
             canon_pairs = [[(before.owner(k) or (k,))[0], v] for k, v in pairs]
-            if canon_pairs != [list(p) for p in pairs] and not rejection_reasons(before, canon_pairs):
+            distinct_targets = len({v for _, v in pairs}) == len(pairs)  # pairs competing for one new name are served in key order
+            if distinct_targets and canon_pairs != [list(p) for p in pairs] and not rejection_reasons(before, canon_pairs):
                 try:
                     alt = remap_curie_prefixes(make_base(base_idx), {k: v for k, v in canon_pairs})
                 except Exception:  # noqa
@@ -218,7 +225,7 @@ def check(base_idx, pairs, twice=False, ctx=None):
 def run_unit(unit, ctx):
     n = unit["n"]
     for keys in unit["keysets"]:
-        for values in it.product(NAMES, repeat=n):
+        for values in it.product(names(unit["base"]), repeat=n):
             base_pairs = list(zip(keys, values))
             for perm in it.permutations(base_pairs):
                 pairs = [list(p) for p in perm]
@@ -235,7 +242,7 @@ def replay(case):
 def describe(tier):
     return {
         "level": "model_checking",
-        "rule": f"3 base converters (3 records with synonyms on both sides / more synonyms and a pattern / built incrementally by merges) x every "
+        "rule": f"4 base converters (3 records with synonyms on both sides / more synonyms and a pattern / built incrementally by merges / one whose canonical prefix is the empty string) x every "
         f"dictionary of 1..{max_pairs(tier)} pairs with distinct keys over the 7 names {NAMES} (canonical x3, synonyms x2, unknown x2) in every key "
         "order, applied once and once more to its own result; distinct_nontrivial = distinct result states that differ from the base",
         "bounds": {"pairs": max_pairs(tier), "names": len(NAMES), "bases": len(BASES)},
